@@ -491,7 +491,45 @@ pub fn cmd_run(id: &str, tier_name: &str) -> ExitCode {
             return ExitCode::from(1);
         }
         println!("vsim: C17 real std handles: {} coloured writes through Stdout/Stderr/StdoutLock/StderrLock held", rep["evaluations"]);
-        extra = json!({"real_std_handles": {"evaluations": rep["evaluations"], "handles": ["Stdout", "Stderr", "StdoutLock", "StderrLock"], "colour_pairs": 289, "note": "fd 1/2 re-pointed at a regular file in a single-threaded child; output read back and judged by the same framing oracle"}});
+        let mut ex = json!({"real_std_handles": {"evaluations": rep["evaluations"], "handles": ["Stdout", "Stderr", "StdoutLock", "StderrLock"], "colour_pairs": 289, "note": "fd 1/2 re-pointed at a regular file in a single-threaded child; output read back and judged by the same framing oracle"}});
+        // coloured writes to the shared std handles from several threads, under Miri's seeded
+        // scheduler: every <codes><data><reset> frame must stay contiguous
+        let driver = format!("{VERIF}/target/miri/release/c19-miri");
+        let have_miri = std::process::Command::new("cargo").args(["+nightly", "miri", "--version"]).output().map(|o| o.status.success()).unwrap_or(false);
+        if have_miri && std::path::Path::new(&driver).exists() {
+            let n = env_u64("VERIF_C17_MIRI_SEEDS").unwrap_or(if tier.name == "thorough" { 256 } else { 32 });
+            let mrep_path = format!("{VERIF}/target/tmp/c17-miri-{}.json", std::process::id());
+            let st = std::process::Command::new(&driver).args(["drive17", &seed.to_string(), &n.to_string(), &mrep_path]).env("VERIF_ROOT", &VERIF).status();
+            let text = std::fs::read_to_string(&mrep_path).unwrap_or_default();
+            let _ = std::fs::remove_file(&mrep_path);
+            let Ok(m) = serde_json::from_str::<Value>(&text) else {
+                eprintln!("vsim: HARNESS ERROR: miri-sim (C17) produced no report ({st:?})");
+                return ExitCode::from(2);
+            };
+            if !m["harness_error"].is_null() {
+                eprintln!("vsim: HARNESS ERROR: miri-sim (C17): {}", m["harness_error"]);
+                return ExitCode::from(2);
+            }
+            if !m["violation"].is_null() {
+                let v = &m["violation"];
+                let path = format!("{VERIF}/replays/C17-miri-{seed}-{}.json", v["miri_seed"]);
+                let doc = json!({"property": "C17", "engine": "miri17", "violation_class": v["class"], "violation_detail": v["detail"],
+                    "miri_seed": v["miri_seed"], "preemption_rate": v["preemption_rate"], "scenario_seed": v["scenario_seed"], "stdout": v["stdout"], "stderr": v["stderr"],
+                    "note": "Miri schedules cannot be minimised; exact replay of (miri seed, preemption rate, scenario seed)",
+                    "replay_cmd": format!("{VERIF}/check replay {path}")});
+                let _ = std::fs::write(&path, serde_json::to_string_pretty(&doc).unwrap());
+                println!("violation class={} (coloured writes from several threads, miri-sim)\n  {}", v["class"].as_str().unwrap_or(""), v["detail"].as_str().unwrap_or(""));
+                let _ = write_evidence(&meta, &tier, seed, &batch, 1, &known_hits, json!({}), vec![doc]);
+                println!("VIOLATION property=C17 replay={path}");
+                return ExitCode::from(1);
+            }
+            println!("vsim: C17 concurrent coloured writes: {} Miri executions held ({} distinct frame orders)", m["executions"], m["distinct_frame_orders"]);
+            ex["concurrent_std_handles_under_miri"] = json!({"executions": m["executions"], "distinct_frame_orders": m["distinct_frame_orders"], "wall_s": m["wall_s"],
+                "note": "2-3 real threads make coloured writes through the WinconStream impls of Stdout/Stderr; -Zmiri-seed, preemption rates 0.01-0.5; frames must stay contiguous per stream"});
+        } else {
+            ex["concurrent_std_handles_under_miri"] = json!({"skipped": "cargo +nightly miri or the miri-sim driver is not available"});
+        }
+        extra = ex;
     }
     if id == "C08" {
         // the Auto choice depends on the process environment: envsim part (see envsim.rs)
